@@ -111,39 +111,60 @@ fn fields3(a: Field, b: Field, c: Field) -> Formatter {
 }
 
 // ---- reference rendering -------------------------------------------------------------------
-struct Ref {
-    b: [u8; 16],
-    n: usize,
+// The output is checked in place, left to right, without any division: a number field must be
+// exactly max(width, number of digits) decimal digits whose value (Horner, multiplications only) is
+// the expected one; a word field must be the expected letters in the expected case.
+pub struct Cur<'a> {
+    b: &'a [u8],
+    pos: usize,
+    ok: bool,
 }
-impl Ref {
-    fn new() -> Self {
-        Ref { b: [0; 16], n: 0 }
+
+fn ndigits(v: u32) -> usize {
+    1 + (v >= 10) as usize
+        + (v >= 100) as usize
+        + (v >= 1_000) as usize
+        + (v >= 10_000) as usize
+        + (v >= 100_000) as usize
+        + (v >= 1_000_000) as usize
+        + (v >= 10_000_000) as usize
+        + (v >= 100_000_000) as usize
+        + (v >= 1_000_000_000) as usize
+}
+
+impl<'a> Cur<'a> {
+    pub fn new(b: &'a [u8]) -> Self {
+        Cur { b, pos: 0, ok: true }
     }
-    fn push(&mut self, c: u8) {
-        self.b[self.n] = c;
-        self.n += 1;
+    fn byte(&mut self, c: u8) {
+        if self.pos < self.b.len() && self.b[self.pos] == c {
+            self.pos += 1;
+        } else {
+            self.ok = false;
+        }
     }
-    /// decimal digits of `v`, zero-padded to at least `width`
-    fn num(&mut self, v: u32, width: usize) {
-        let mut tmp = [0u8; 10];
-        let mut k = 0;
-        let mut x = v;
-        loop {
-            tmp[k] = (x % 10) as u8 + b'0';
-            k += 1;
-            x /= 10;
-            if x == 0 {
-                break;
+    /// decimal digits of `v`, zero-padded to at least `width` (never truncated)
+    pub fn num(&mut self, v: u32, width: usize) {
+        let nd = ndigits(v);
+        let len = if nd > width { nd } else { width };
+        if self.pos + len > self.b.len() {
+            self.ok = false;
+            return;
+        }
+        let mut acc: u64 = 0;
+        let mut i = 0;
+        while i < len {
+            let c = self.b[self.pos + i];
+            if c < b'0' || c > b'9' {
+                self.ok = false;
             }
+            acc = acc * 10 + (c.wrapping_sub(b'0')) as u64;
+            i += 1;
         }
-        while k < width {
-            tmp[k] = b'0';
-            k += 1;
+        if acc != v as u64 {
+            self.ok = false;
         }
-        while k > 0 {
-            k -= 1;
-            self.push(tmp[k]);
-        }
+        self.pos += len;
     }
     fn word(&mut self, w: &[u8], style: u8, abbr_len: usize) {
         // style: 0 Capital, 1 lower, 2 UPPER (+3 abbreviated); `w` is given in upper case
@@ -152,10 +173,12 @@ impl Ref {
         let mut i = 0;
         while i < len {
             let c = w[i];
-            let lower = c + 32;
-            self.push(if st == 2 || (st == 0 && i == 0) { c } else { lower });
+            self.byte(if st == 2 || (st == 0 && i == 0) { c } else { c + 32 });
             i += 1;
         }
+    }
+    pub fn done(&self) -> bool {
+        self.ok && self.pos == self.b.len()
     }
 }
 
@@ -202,7 +225,7 @@ fn date_field(kind: u8) -> Field {
     }
 }
 
-fn ref_date_field(r: &mut Ref, kind: u8, y: i32, m: u32, d: u32, wd: u32) {
+fn ref_date_field(r: &mut Cur, kind: u8, y: i32, m: u32, d: u32, wd: u32) {
     match kind {
         0..=3 => r.num(y as u32 % pow10(kind as u32 + 1), kind as usize + 1),
         4 => r.num(m, 2),
@@ -216,21 +239,7 @@ fn ref_date_field(r: &mut Ref, kind: u8, y: i32, m: u32, d: u32, wd: u32) {
     }
 }
 
-fn same(sink: &Sink<48>, r: &Ref) -> bool {
-    if sink.len != r.n {
-        return false;
-    }
-    let mut i = 0;
-    while i < r.n {
-        if sink.buf[i] != r.b[i] {
-            return false;
-        }
-        i += 1;
-    }
-    true
-}
-
-//@ unit c04_date_field prop=C04,C03 chunks=range:0:21 quickn=5 unwind=12 mem=5 timeout=1500 stubs=crate::common::julian2date=>crate::verif_support::ghost_julian2date bound="Date: every real date 0001-01-01..9999-12-31 (as a triple), picture = the single date token given by the parameter (Y/YY/YYY/YYYY, MM, DD, DDD, D, W, WW, DAY and MONTH in six letter styles): output bytes equal the reference rendering"
+//@ unit c04_date_field prop=C04,C03 chunks=range:0:21 quick=all unwind=12 mem=5 timeout=1500 stubs=crate::util::try_format=>crate::verif_support::stub_try_format,crate::common::julian2date=>crate::verif_support::ghost_julian2date bound="Date: every real date 0001-01-01..9999-12-31 (as a triple), picture = the single date token given by the parameter (Y/YY/YYY/YYYY, MM, DD, DDD, D, W, WW, DAY and MONTH in six letter styles): output bytes equal the reference rendering"
 fn c04_date_field(kind: u8) {
     let (x, (y, m, d)) = ghost_date(1, 9999);
     let wd = o_weekday(x.days());
@@ -238,9 +247,9 @@ fn c04_date_field(kind: u8) {
     let mut sink: Sink<48> = Sink::new();
     let res = fmt.format(x, &mut sink);
     assert!(res.is_ok());
-    let mut r = Ref::new();
+    let mut r = Cur::new(sink.bytes());
     ref_date_field(&mut r, kind, y, m, d, wd);
-    assert!(same(&sink, &r));
+    assert!(r.done());
     kani::cover!(m == 9 && wd == 4);
     kani::cover!(m == 12 && d == 31);
     kani::cover!(y == 9999);
@@ -264,7 +273,7 @@ fn time_field(kind: u8) -> Field {
     }
 }
 
-fn ref_time_field(r: &mut Ref, kind: u8, h: u32, mi: u32, s: u32, us: u32) {
+fn ref_time_field(r: &mut Cur, kind: u8, h: u32, mi: u32, s: u32, us: u32) {
     match kind {
         0 => r.num(h, 2),
         1 => r.num(if h == 0 { 12 } else if h > 12 { h - 12 } else { h }, 2),
@@ -275,13 +284,13 @@ fn ref_time_field(r: &mut Ref, kind: u8, h: u32, mi: u32, s: u32, us: u32) {
             let upper = kind == 4 || kind == 6;
             let dots = kind >= 6;
             let a = if pm { b'P' } else { b'A' };
-            r.push(if upper { a } else { a + 32 });
+            r.byte(if upper { a } else { a + 32 });
             if dots {
-                r.push(b'.');
+                r.byte(b'.');
             }
-            r.push(if upper { b'M' } else { b'm' });
+            r.byte(if upper { b'M' } else { b'm' });
             if dots {
-                r.push(b'.');
+                r.byte(b'.');
             }
         }
         _ => {
@@ -303,23 +312,23 @@ fn ref_time_field(r: &mut Ref, kind: u8, h: u32, mi: u32, s: u32, us: u32) {
     }
 }
 
-//@ unit c04_time_field prop=C04,C03 chunks=range:0:17 quickn=5 unwind=12 mem=5 timeout=1500 stubs=crate::time::Time::extract=>crate::format::verif_h_fmt_fields::stub_time_extract bound="Time: every time of day (h, m, s, us as fields - all 86.4e9 microseconds), picture = the single time token given by the parameter (HH24, HH12, MI, SS, AM/am/A.M./a.m., FF, FF1..FF9): output bytes equal the reference rendering (fractions truncated)"
+//@ unit c04_time_field prop=C04,C03 chunks=range:0:17 quick=all unwind=12 mem=5 timeout=1500 stubs=crate::util::try_format=>crate::verif_support::stub_try_format,crate::time::Time::extract=>crate::format::verif_h_fmt_fields::stub_time_extract bound="Time: every time of day (h, m, s, us as fields - all 86.4e9 microseconds), picture = the single time token given by the parameter (HH24, HH12, MI, SS, AM/am/A.M./a.m., FF, FF1..FF9): output bytes equal the reference rendering (fractions truncated)"
 fn c04_time_field(kind: u8) {
     let (t, (h, mi, s, us)) = ghost_time();
     let fmt = one_field(time_field(kind));
     let mut sink: Sink<48> = Sink::new();
     let res = fmt.format(t, &mut sink);
     assert!(res.is_ok());
-    let mut r = Ref::new();
+    let mut r = Cur::new(sink.bytes());
     ref_time_field(&mut r, kind, h, mi, s, us);
-    assert!(same(&sink, &r));
+    assert!(r.done());
     kani::cover!(h == 0);
     kani::cover!(h == 12);
     kani::cover!(us == 999_999 && h == 23);
     std::mem::forget(fmt);
 }
 
-//@ unit c04_ts_pair prop=C04,C03 chunks=tuples:3,0;5,8;16,2;6,12;9,1;7,5;13,3 quick=first:1 unwind=12 mem=8 timeout=2400 stubs=crate::common::julian2date=>crate::verif_support::ghost_julian2date,crate::time::Time::extract=>crate::format::verif_h_fmt_fields::stub_time_extract,crate::timestamp::Timestamp::extract=>crate::verif_support::stub_ts_extract,crate::timestamp::Timestamp::date=>crate::verif_support::stub_ts_date,crate::timestamp::Timestamp::time=>crate::verif_support::stub_ts_time bound="Timestamp: every real date x every time of day, picture = date token (1st parameter), a symbolic punctuation or blank run of 1..=3, time token (2nd parameter): the output is the concatenation in picture order"
+//@ unit c04_ts_pair prop=C04,C03 chunks=tuples:3,0;5,8;16,2;6,12;9,1;7,5;13,3 quick=first:2 unwind=12 mem=8 timeout=2400 stubs=crate::util::try_format=>crate::verif_support::stub_try_format,crate::common::julian2date=>crate::verif_support::ghost_julian2date,crate::time::Time::extract=>crate::format::verif_h_fmt_fields::stub_time_extract,crate::timestamp::Timestamp::extract=>crate::verif_support::stub_ts_extract,crate::timestamp::Timestamp::date=>crate::verif_support::stub_ts_date,crate::timestamp::Timestamp::time=>crate::verif_support::stub_ts_time bound="Timestamp: every real date x every time of day, picture = date token (1st parameter), a symbolic punctuation or blank run of 1..=3, time token (2nd parameter): the output is the concatenation in picture order"
 fn c04_ts_pair(dk: u8, tk: u8) {
     let (x, (y, m, d)) = ghost_date(1, 9999);
     let (t, (h, mi, s, us)) = ghost_time();
@@ -342,21 +351,21 @@ fn c04_ts_pair(dk: u8, tk: u8) {
     let fmt = fields3(date_field(dk), pf, time_field(tk));
     let mut sink: Sink<48> = Sink::new();
     assert!(fmt.format(ts, &mut sink).is_ok());
-    let mut r = Ref::new();
+    let mut r = Cur::new(sink.bytes());
     ref_date_field(&mut r, dk, y, m, d, wd);
     let mut k = 0;
     while k < pn {
-        r.push(pb);
+        r.byte(pb);
         k += 1;
     }
     ref_time_field(&mut r, tk, h, mi, s, us);
-    assert!(same(&sink, &r));
+    assert!(r.done());
     kani::cover!(pk == 9);
     kani::cover!(x.days() < 0 && us > 0);
     std::mem::forget(fmt);
 }
 
-//@ unit c04_interval_ym prop=C04,C03 unwind=14 mem=5 timeout=1500 bound="IntervalYM: every value, pictures YYYY (any of Y..YYYY), MM and YYYY-MM: one leading sign, years zero-padded to the token width (never truncated), 2-digit months"
+//@ unit c04_interval_ym prop=C04,C03 unwind=14 mem=5 timeout=1500 stubs=crate::util::try_format=>crate::verif_support::stub_try_format bound="IntervalYM: every value, pictures YYYY (any of Y..YYYY), MM and YYYY-MM: one leading sign, years zero-padded to the token width (never truncated), 2-digit months"
 fn c04_interval_ym() {
     let v = any_i32_in(-YM_MAX, YM_MAX);
     let x = mk_ym(v);
@@ -367,18 +376,18 @@ fn c04_interval_ym() {
     let fmt = fields3(Field::Year(n), Field::Hyphen, Field::Month);
     let mut sink: Sink<48> = Sink::new();
     assert!(fmt.format(x, &mut sink).is_ok());
-    let mut r = Ref::new();
-    r.push(if v < 0 { b'-' } else { b'+' });
+    let mut r = Cur::new(sink.bytes());
+    r.byte(if v < 0 { b'-' } else { b'+' });
     r.num(yy, n as usize);
-    r.push(b'-');
+    r.byte(b'-');
     r.num(mm, 2);
-    assert!(same(&sink, &r));
+    assert!(r.done());
     kani::cover!(v < 0 && yy >= 100_000_000);
     kani::cover!(v == 0);
     std::mem::forget(fmt);
 }
 
-//@ unit c04_interval_dt prop=C04,C03 chunks=range:0:5 quickn=2 unwind=14 mem=6 timeout=1800 stubs=crate::interval::IntervalDT::extract=>crate::format::verif_h_fmt_fields::stub_dt_extract bound="IntervalDT: every value (sign and fields), picture = DD then the token given by the parameter (0 none, 1 HH24, 2 MI, 3 SS, 4 FF, 5 FF3): one leading sign, days at least 2 digits, fields as for times"
+//@ unit c04_interval_dt prop=C04,C03 chunks=range:0:5 quickn=3 unwind=14 mem=6 timeout=1800 stubs=crate::util::try_format=>crate::verif_support::stub_try_format,crate::interval::IntervalDT::extract=>crate::format::verif_h_fmt_fields::stub_dt_extract bound="IntervalDT: every value (sign and fields), picture = DD then the token given by the parameter (0 none, 1 HH24, 2 MI, 3 SS, 4 FF, 5 FF3): one leading sign, days at least 2 digits, fields as for times"
 fn c04_interval_dt(kind: u8) {
     let (v, (neg, d, h, mi, s, us)) = ghost_dt();
     let second = match kind {
@@ -392,19 +401,19 @@ fn c04_interval_dt(kind: u8) {
     let fmt = fields3(Field::Day, Field::Blank(1), second);
     let mut sink: Sink<48> = Sink::new();
     assert!(fmt.format(v, &mut sink).is_ok());
-    let mut r = Ref::new();
-    r.push(if neg { b'-' } else { b'+' });
+    let mut r = Cur::new(sink.bytes());
+    r.byte(if neg { b'-' } else { b'+' });
     r.num(d, 2);
-    r.push(b' ');
+    r.byte(b' ');
     match kind {
-        0 => r.push(b' '),
+        0 => r.byte(b' '),
         1 => r.num(h, 2),
         2 => r.num(mi, 2),
         3 => r.num(s, 2),
         4 => r.num(us, 6),
         _ => r.num(us / 1000, 3),
     }
-    assert!(same(&sink, &r));
+    assert!(r.done());
     kani::cover!(neg && d == 100_000_000);
     kani::cover!(d == 31);
     kani::cover!(d == 32);
@@ -415,7 +424,7 @@ fn is_format_err<T>(r: &Result<T>) -> bool {
     matches!(r, Err(Error::FormatError(_)))
 }
 
-//@ unit c04_inapplicable prop=C04,C03 unwind=12 mem=6 timeout=1800 stubs=crate::common::julian2date=>crate::verif_support::ghost_julian2date,crate::time::Time::extract=>crate::format::verif_h_fmt_fields::stub_time_extract,crate::timestamp::Timestamp::extract=>crate::verif_support::stub_ts_extract,crate::timestamp::Timestamp::date=>crate::verif_support::stub_ts_date,crate::timestamp::Timestamp::time=>crate::verif_support::stub_ts_time,crate::interval::IntervalDT::extract=>crate::format::verif_h_fmt_fields::stub_dt_extract bound="every type x every field kind (symbolic): a token that does not apply to the value's type yields Err(FormatError) and no panic; an applicable one yields Ok"
+//@ unit c04_inapplicable prop=C04,C03 unwind=12 mem=6 timeout=1800 stubs=crate::util::try_format=>crate::verif_support::stub_try_format,crate::common::julian2date=>crate::verif_support::ghost_julian2date,crate::time::Time::extract=>crate::format::verif_h_fmt_fields::stub_time_extract,crate::timestamp::Timestamp::extract=>crate::verif_support::stub_ts_extract,crate::timestamp::Timestamp::date=>crate::verif_support::stub_ts_date,crate::timestamp::Timestamp::time=>crate::verif_support::stub_ts_time,crate::interval::IntervalDT::extract=>crate::format::verif_h_fmt_fields::stub_dt_extract bound="every type x every field kind (symbolic): a token that does not apply to the value's type yields Err(FormatError) and no panic; an applicable one yields Ok"
 fn c04_inapplicable() {
     let which: u8 = kani::any();
     kani::assume(which < 40);
